@@ -357,8 +357,10 @@ impl<'a, 't, 'g> VGen<'a, 't, 'g> {
                     let default = if self.t.flag() { Some(EnumeratedValue::new(&values[self.t.below(values.len())].clone())) } else { None };
                     let info_values = values.clone();
                     if values.len() >= 2 && self.site(FaultKind::DupEnumValue) {
-                        let last = values.len() - 1;
-                        values[last] = values[0].clone();
+                        // (appended, not substituted: every declared value stays declared, so the unit
+                        // has exactly this one fault)
+                        let dup = values[0].clone();
+                        values.push(dup);
                         let m = values[0].clone();
                         self.set_marker(&m);
                     }
